@@ -552,7 +552,7 @@ impl Scenario for SpendNet {
         ScenarioInfo {
             property: "C15",
             name: "spend-net",
-            rule: "one case = one seeded collaborative-build history of 6-45 events on a shared real Transaction: builders add inputs/outputs, signers sign inputs (P2PK / P2PKH / m-of-n multisig 1<=m<=n<=3 / a two-check script <pkA> CHECKSIGVERIFY <pkB> CHECKSIG whose checks have different subscripts, CHECKSIG or *VERIFY form, code separators at seeded positions incl. inside an always-taken OP_IF) through Transaction::sign with any of the 12 standard flag bytes at any point of the build, finalise assembles unlocking scripts through Script::from_asm_string / P2PKHAddress::get_unlocking_script + set_input, parties mutate one field after signing (version, locktime, own/other outpoint, own/other sequence, an output value/script, output or input count, declared value, a key byte, a signature byte, the flag byte, signature order), a byzantine peer signs the byte-reversed digest, the transaction is shipped through extended CBOR/JSON, and a validator runs Interpreter::from_transaction on the live object and the shipped copy; non-trivial = a mutation, byzantine signature, out-of-order signing (signature made before the build was complete) or ship happened before a validation; distinct = fingerprint of the (event kind, family, flag, mutation kind, verdict) sequence",
+            rule: "one case = one seeded collaborative-build history of 6-45 events on a shared real Transaction: builders add / insert / prepend / replace inputs and outputs, signers sign inputs (P2PK / P2PKH / m-of-n multisig 1<=m<=n<=3 / a two-check script <pkA> CHECKSIGVERIFY <pkB> CHECKSIG whose checks have different subscripts, CHECKSIG or *VERIFY form, code separators at seeded positions incl. inside an always-taken OP_IF) through Transaction::sign (or as a reference peer over an independently computed preimage) with any of the 12 standard flag bytes at any point of the build, possibly with a script parked in the input while signing, finalise picks any subset of m signers (or an outsider) and assembles unlocking scripts through Script::from_asm_string / P2PKHAddress::get_unlocking_script + set_input, parties mutate one field after signing (version, locktime, own/other outpoint, own/other sequence, an output value/script, output or input count, declared value, a key byte, a signature byte, an extra byte before the flag, the flag byte, signature order, an emptied or dropped signature), a byzantine peer signs the byte-reversed digest, the transaction is shipped through extended CBOR/JSON, and a validator runs Interpreter::from_transaction on the live object and the shipped copy, also with stdout failing and also crash-restarted mid-script through the interpreter's JSON form; non-trivial = a mutation, byzantine signature, out-of-order signing (signature made before the build was complete) or ship happened before a validation; distinct = fingerprint of the (event kind, family, flag, mutation kind, verdict) sequence",
             abstract_state: "(family, m-of-n, flag, separators class, mutation kind since signing or none, shipped?, expected verdict)",
             real: &["bsv::Transaction (add_input/add_output/set_input/set_output/set_version/set_nlocktime, sign, to/from extended CBOR and JSON)", "bsv::Interpreter::{from_transaction, run, state}", "bsv::Script::{from_bytes, from_asm_string}", "bsv::P2PKHAddress::{from_pubkey, get_unlocking_script}", "bsv::SighashSignature, bsv::TxIn extended fields"],
             stub: &["covered-view model: a ~40-line table of which fields each flag commits to (not a byte-level preimage)", "ByzSigner: RFC 6979 textbook signer over the byte-reversed double-SHA256 of the library's own preimage", "locking scripts are assembled byte-wise by the harness (families fixed by the statement)"],
